@@ -82,15 +82,19 @@ func genConcSpec(r *rand.Rand) concSpec {
 		sp.Chain.Origin = uint64(r.Intn(1000))
 	}
 	for p := 0; p < sp.Peers; p++ {
-		sp.Profiles = append(sp.Profiles, r.Intn(len(profiles)))
+		pr := 0
+		if r.Intn(2) == 0 {
+			pr = r.Intn(len(profiles))
+		}
+		sp.Profiles = append(sp.Profiles, pr)
 	}
 	sp.Cache = []int{2, 4, 8, 64}[r.Intn(4)]
 	sp.MaxRes = []int{1, 3, 2048}[r.Intn(3)]
-	sp.Iter = 4 + r.Intn(4)
+	sp.Iter = 6 + r.Intn(7)
 	sp.Cancel = r.Intn(4) == 0
 	sp.Blocking = r.Intn(3) == 0
-	sp.Timer = 3 + r.Intn(6)
-	sp.Consumer = 3 + r.Intn(6)
+	sp.Timer = 4 + r.Intn(7)
+	sp.Consumer = 4 + r.Intn(7)
 	for i := 0; i < sp.Peers+2; i++ {
 		sp.Seeds = append(sp.Seeds, r.Int63())
 	}
@@ -98,10 +102,7 @@ func genConcSpec(r *rand.Rand) concSpec {
 }
 
 func runConc(c *kit.Ctx) {
-	n := c.N(300, 15000)
-	if c.Mode != "race" {
-		n = c.N(600, 30000)
-	}
+	n := c.N(900, 45000)
 	for i := 0; i < n; i++ {
 		id := fmt.Sprintf("h%d", i)
 		if !c.Mine(i, id) {
